@@ -327,7 +327,7 @@ func c09Spec() propSpec {
 		prop: "C09", test: "TestVerifC09MirrorHostile",
 		rule: "histories of 3-40 ops against one real Mirror: proposed headers / votes at relative heights -2..+3 and rounds -1..+3 with every content, commit-proof and signature corruption variant, replayed headers of every variant, state machine entrances and actions, stalled consumers, concurrent groups, clean restarts; every call has a fake-time deadline and a poll-counting context; non-trivial = some input outside the (voting height, voting round) window or malformed; distinct = fingerprint of (config, op list)",
 		profile: genProfile{
-			w:              map[string]int{"ph": 8, "vote": 10, "round": 4, "replay": 3, "sment": 2, "smact": 2, "stall": 1, "read": 1, "conc": 2, "restart": 1, "time": 1},
+			w:              map[string]int{"ph": 8, "vote": 10, "round": 4, "replay": 3, "sment": 2, "smact": 2, "stall": 1, "read": 1, "conc": 2, "restart": 1, "time": 1, "fetch": 2},
 			phVariants:     allVariants(phVariants),
 			pcpVariants:    allVariants(pcpVariants),
 			voteCorr:       allVariants(vcVariants),
@@ -510,7 +510,7 @@ func c01Spec() propSpec {
 		prop: "C01", test: "TestVerifC01CommitCertificate",
 		rule: "histories of 3-40 ops against one real Mirror weighted towards certificates: honest round macros with partial signer masks (below / at / above quorum), precommit messages with corruption, proposed headers with every previous-commit-proof variant (next-height headers that backfill a commit included), replayed headers of every variant (foreign validator list, forged powers, below quorum, bad signature, other height, extra nil entry), state machine entrances, concurrent groups; at every commit event (committing view, committed-header store, accepted replay, header handed to the state machine) the held precommits are re-verified with crypto/ed25519 under the prescribed set and summed in math/big; non-trivial = >=1 commit event and >=1 certificate that must be rejected was offered; distinct = fingerprint of (config, op list)",
 		profile: genProfile{
-			w:              map[string]int{"ph": 5, "vote": 8, "round": 6, "replay": 6, "sment": 1, "smact": 1, "conc": 1},
+			w:              map[string]int{"ph": 5, "vote": 8, "round": 6, "replay": 6, "sment": 1, "smact": 1, "conc": 1, "fetch": 2},
 			phVariants:     []int{phFresh, phFresh, phFresh, phAltNext, phBadSig, phWrongPrev, phForgedNext, phForgedCur},
 			pcpVariants:    allVariants(pcpVariants),
 			voteCorr:       []int{vcNone, vcFlip, vcOtherKey, vcOtherKind, vcOtherRound, vcOtherHeight, vcOutsider, vcOtherTarget},
@@ -725,7 +725,7 @@ func c04Spec() propSpec {
 		prop: "C04", test: "TestVerifC04CommittedChain",
 		rule: "histories of 4-45 ops over several heights: honest round macros, late / duplicated / conflicting but well-signed certificates aimed at committed heights (the harness owns all keys), proposed headers and replays whose PrevBlockHash does not match the committed predecessor, replays at old / current / future heights, next-height headers, concurrent groups, clean restarts; after every step: committed hash per height never changes, heights are contiguous from the initial height, stored and viewed voting positions never go backwards, voting height = committing height + 1, every stored header names the stored predecessor's hash; non-trivial = >=2 commits and >=1 input aimed at a committed height or carrying a mismatching PrevBlockHash; distinct = fingerprint of (config, op list)",
 		profile: genProfile{
-			w:              map[string]int{"ph": 6, "vote": 6, "round": 10, "replay": 5, "restart": 2, "conc": 1, "sment": 1},
+			w:              map[string]int{"ph": 6, "vote": 6, "round": 10, "replay": 5, "restart": 2, "conc": 1, "sment": 1, "fetch": 2},
 			phVariants:     []int{phFresh, phFresh, phWrongPrev, phWrongPrev, phAltNext},
 			pcpVariants:    []int{pcpExact, pcpExact, pcpExact, pcpBelowQuorum, pcpWrongRound},
 			voteCorr:       []int{vcNone, vcNone, vcFlip},
@@ -1208,7 +1208,7 @@ func c11Spec() propSpec {
 		prop: "C11", test: "TestVerifC11ConsumerViews",
 		rule: "histories of 4-45 ops against one real Mirror with explicit consumer schedules: both output channels are drained only when an op says so (stall / resume / read n), state machine entrances race with view shifts, honest macro rounds incl. nil rounds and partial votes, next-round votes that make the mirror skip, proposals, concurrent groups; per consumer and round: versions strictly increase, proposals and signer sets only grow, received values never change after receipt, a drained consumer holds the mirror's current view, and a round left by nil commit / full vote / skip is explained to the state machine (votes or jump-ahead) and to gossip (NilVotedRound); non-trivial = a view shift (commit or round change) happened while a consumer was stalled with an update pending; distinct = fingerprint of (config, op list)",
 		profile: genProfile{
-			w:              map[string]int{"ph": 3, "vote": 8, "round": 8, "sment": 4, "smact": 2, "stall": 4, "read": 4, "conc": 5, "replay": 3},
+			w:              map[string]int{"ph": 3, "vote": 8, "round": 8, "sment": 4, "smact": 2, "stall": 4, "read": 4, "conc": 5, "replay": 3, "fetch": 2},
 			phVariants:     []int{phFresh, phFresh, phAltNext, phBadSig},
 			pcpVariants:    []int{pcpExact},
 			voteCorr:       []int{vcNone, vcNone, vcFlip},
